@@ -199,6 +199,10 @@ func (s *udpServer) handleMsg(b, oob []byte, remoteAddr, listenerAddr netip.Addr
 	})
 }
 
+// The largest payload a udp datagram can carry (65535 - 20 (ipv4 header) - 8 (udp header)).
+// A larger response cannot be sent, it has to be truncated.
+const maxUdpPayload = 65507
+
 func (s *udpServer) handleReq(m *dnsmsg.Msg, rc *RequestContext, oobAddr netip.Addr) {
 	s.r.handleServerReq(m, rc)
 
@@ -212,6 +216,9 @@ func (s *udpServer) handleReq(m *dnsmsg.Msg, rc *RequestContext, oobAddr netip.A
 	}
 	if clientUdpSize < 512 {
 		clientUdpSize = 512
+	}
+	if clientUdpSize > maxUdpPayload {
+		clientUdpSize = maxUdpPayload
 	}
 
 	b := mustHaveRespB(m, rc.Response.Msg, dnsmsg.RCodeRefused, false, clientUdpSize)
